@@ -16,7 +16,7 @@ ASSUMPTIONS = ["the functional helpers' documented uint8 default is respected: d
                "weights are positive integers; totals beyond 2^24 (weights of 10^6 and more) are compared at the single-precision resolution of the returned matrices; totals of 2^31 and more are not demanded (the unchanged code is itself inexact there)"]
 EXHAUSTIVE = {"quick": ["all strings len<=3 over AB as A and B, 6 weight triples", "pdist layout for every m in 2..9"],
               "thorough": ["all strings len<=4 over AB as A and B, 14 weight triples", "all strings len<=3 over ABC, 6 weight triples", "pdist layout for every m in 2..14"]}
-REQUIRE = {"pdist_big_cases": 1, "huge_weight_cases": 2, "long_one_sided_calls": 22, "cdist_cells_checked": 2328, "pdist_entries_checked": 500, "asymmetric_weight_cases": 20, "sub_gt_ins_plus_del_cases": 4,
+REQUIRE = {"thin_matrix_cases": 32, "pdist_big_cases": 1, "huge_weight_cases": 2, "long_one_sided_calls": 22, "cdist_cells_checked": 2328, "pdist_entries_checked": 500, "asymmetric_weight_cases": 20, "sub_gt_ins_plus_del_cases": 4,
            "long_string_pairs": 5, "functional_pdist_cases": 10, "functional_cdist_cases": 10, "kwargs_forwarded_checked": 5,
            "float_callable_cases": 5, "squareform_roundtrips": 15, "default_metric_kwargs_cases": 5}
 SHARDS = {"quick": 4, "thorough": 16}
@@ -39,7 +39,7 @@ def _metric(ins, dele, sub, use_plain):
     return WeightedLevenshtein(insertion_weight=ins, deletion_weight=dele, substitution_weight=sub)
 
 
-def k_metric(ctx, A, B, w, plain=False, container=None):
+def k_metric(ctx, A, B, w, plain=False, container=None, thin=False):
     import numpy as np
     from scipy.spatial.distance import squareform
     ins, dele, sub = (1, 1, 1) if plain else w
@@ -48,6 +48,8 @@ def k_metric(ctx, A, B, w, plain=False, container=None):
     name = "Levenshtein" if plain else "WeightedLevenshtein"
     if ins != dele:
         ctx.count("asymmetric_weight_cases")
+    if thin:
+        ctx.count("thin_matrix_cases")
     if sub > ins + dele:
         ctx.count("sub_gt_ins_plus_del_cases")
     a = G.make_container(container, A) if container else list(A)
@@ -315,6 +317,12 @@ def generate(tier, seed):
     for i in range(12 if thorough else 3):
         X = [G.rand_string(rng, "ACD", 0, 5) for _ in range(rng.randint(101, 140))]
         yield "metric", {"A": X, "B": X[:4], "w": [[2, 5, 3], [1, 3, 1], [1, 1, 1]][i % 3], "plain": i % 3 == 2}, True
+    # extreme shapes: one anchor against n comparisons and the reverse (single-query / single-reference shortcuts), asymmetric weights
+    for n in (1, 2, 31, 32, 33, 64, 129, 300):
+        X = [G.rand_string(rng, "ACD", 0, 7) for _ in range(n)]
+        for k, w in ((1, [2, 5, 3]), (2, [4, 1, 2])):
+            yield "metric", {"A": X[:k], "B": X, "w": w, "thin": True}, True
+            yield "metric", {"A": X, "B": X[-k:], "w": w, "thin": True}, True
     # strings that differ by a trailing NUL or control character only (plain lists: no fixed-width array in the harness)
     yield "metric", {"A": G.NUL_STRINGS, "B": G.NUL_STRINGS + ["A\n", "A\x00B"], "w": [1, 1, 1], "plain": True}, True
     yield "metric", {"A": G.NUL_STRINGS, "B": G.NUL_STRINGS + ["A\n", "A\x00B"], "w": [2, 3, 4]}, True
